@@ -352,6 +352,7 @@ func runC09(c *Ctx) {
 	}
 	r.Floor("C09-D4", "loadUnits-returns", n, 2)
 	c09Rollover(c)
+	c09Totals(c)
 }
 
 // c09Rollover: D5.  The rollover transaction is abandoned only because of an
@@ -457,4 +458,50 @@ func c09Rollover(c *Ctx) {
 	r.Check(len(missing) == 0, "C09-D5", "retention-follows-limit", p.InstrPos(calls[0].Instr),
 		fmt.Sprintf("the bucket the rollover deletes is computed from %v, which every writer of the retention limit keeps up to date", srcs),
 		fmt.Sprintf("the bucket the rollover deletes is computed from %v, which is not updated by every writer of the retention limit: after a limit change buckets inside the reported window are deleted (or expired ones kept)", srcs), missing...)
+}
+
+// c09Totals: D6.  The totals of the report are sums over all units of the
+// window.  The per-day series are cut to whole days for long windows, so a
+// total computed from a series would lose the oldest hours: no total may be
+// derived from the series fields of the response.
+func c09Totals(c *Ctx) {
+	p, r := c.P, c.R
+	fn := p.Fn("(*stats.StatsCtx).dataFromUnits")
+	if fn == nil {
+		r.Undecided("C09-D6", "dataFromUnits", "-", "anchor not found")
+		return
+	}
+	fns := []*ssa.Function{fn}
+	for h := range core.StaticReach(fn, 2) {
+		if h != fn && core.PkgOf(h) == "stats" {
+			fns = append(fns, h)
+		}
+	}
+	series := map[string]bool{"DNSQueries": true, "BlockedFiltering": true, "ReplacedSafebrowsing": true, "ReplacedParental": true}
+	n := 0
+	var bad []string
+	for _, f := range fns {
+		for _, b := range f.Blocks {
+			for _, in := range b.Instrs {
+				st, ok := in.(*ssa.Store)
+				if !ok {
+					continue
+				}
+				fr, ok := core.FieldOfAddr(st.Addr)
+				if !ok || fr.Type != "stats.StatsResp" || !strings.HasPrefix(fr.Field, "Num") {
+					continue
+				}
+				n++
+				for _, o := range core.Origins(st.Val, core.ProvOpts{Prog: p, IntoModuleCalls: true, InterprocDepth: 2}) {
+					if o.Kind == "field" && strings.HasPrefix(o.Key, "stats.StatsResp.") && series[strings.TrimPrefix(o.Key, "stats.StatsResp.")] {
+						bad = append(bad, fmt.Sprintf("%s at %s is computed from the series %s", fr.Field, p.InstrPos(in), o.Key))
+					}
+				}
+			}
+		}
+	}
+	sort.Strings(bad)
+	r.Check(n >= 4 && len(bad) == 0, "C09-D6", "totals-not-from-series", p.FnPos(fn),
+		fmt.Sprintf("the %d total counters are not derived from the (day-aligned, possibly shortened) series", n),
+		"a total is computed from a per-interval series, which is cut to whole days for long windows: queries counted in the oldest hours of the window drop out of the total", bad...)
 }
